@@ -161,6 +161,9 @@ func (g *genCtx) wellFormedBody(id uint16, ver19 bool, phone []byte) []byte {
 		if r.chance(30) {
 			code = []byte("wrong-code")
 		}
+		if ver19 && r.chance(8) {
+			code = nil // an empty code: the 2019 body is exactly its 36 fixed bytes
+		}
 		if ver19 {
 			if r.chance(20) {
 				code = padStr(string(code), r.pick(32, 40, 64)) // fixed-width, zero-padded code field
